@@ -1,11 +1,12 @@
 """C04 — negation and aggregation see the complete relation, each tuple once."""
 from . import core, eng, gen, engcheck
 
-THEOREMS = ["agg_view_each_once", "run_agg_eq_model", "agg_sees_final", "run_agg_rows_set", "run_agg_from_eq_model", "agg_view_each_once_from", "run_agg_eq_model_from", "second_run_agg_view_each_once", "second_run_view_witness", "runPhys_agg_eq_model", "runND_agg_spec", "run_is_RunND_agg", "neg_hyps", "aggPlanOk_ixSetsOfA", "planOk_ixSetsOfA", "runPhys_agg_compiled_eq_model", "run_mixed_lattice_key_unique", "run_mixed_lattice_view_once", "agg_over_lattice_one_row_per_key", "agg_item_reads_view_iter", "distAgg_run", "distAgg_intermediate"]
+THEOREMS = ["agg_view_each_once", "run_agg_eq_model", "agg_sees_final", "run_agg_rows_set", "run_agg_from_eq_model", "agg_view_each_once_from", "run_agg_eq_model_from", "second_run_agg_view_each_once", "second_run_view_witness", "runPhys_agg_eq_model", "runND_agg_spec", "run_is_RunND_agg", "neg_hyps", "aggPlanOk_ixSetsOfA", "planOk_ixSetsOfA", "runPhys_agg_compiled_eq_model", "run_mixed_lattice_key_unique", "run_mixed_lattice_view_once", "agg_over_lattice_one_row_per_key", "agg_item_reads_view_iter", "distAgg_run", "distAgg_intermediate", "run_mixed_closed", "run_mixed_least", "run_mixed_closed_items", "run_mixed_least_items", "LClosedA_iff_of_aggFree", "distAgg_finalAggView"]
 TRUSTED = ["Props/C04Lat.lean (Proofs/AggLatInv.lean): programs with BOTH lattices and aggregation / negation (abstract engine, serial) - for every stratified program an aggregate or negation that ranges over a lattice relation of a "
            "lower stratum reads, at every iteration and rule boundary of its stratum, exactly one row per key of the lattice, carrying the value the lattice has in the FINAL result (agg_over_lattice_one_row_per_key, "
            "agg_item_reads_view_iter); one row per lattice key after run() for ANY program with declared heads (run_mixed_lattice_key_unique, no stratification / order / arity hypothesis); non-vacuity distAgg_run / "
-           "distAgg_intermediate (a distance lowered in place from 9 to 7 is never seen by the aggregates); the closed / least characterisation of mixed programs and the physical level remain tie-only (agg-over-lattice cases of this check)",
+           "distAgg_intermediate (a distance lowered in place from 9 to 7 is never seen by the aggregates); the physical level remains tie-only (agg-over-lattice cases of this check)",
+           "Props/C04LatSem.lean (Spec/LatticeLfpAgg.lean, Proofs/AggLatSem*.lean): the SEMANTIC characterisation of stratified programs with lattices AND aggregation / negation (abstract engine, serial, runs from the initial value): the final database is closed under the rules with every aggregate evaluated on the FINAL rows (one row per lattice key) - run_mixed_closed - and, for programs monotone w.r.t. that view, least among the key-unique databases closed for the same view - run_mixed_least; LClosedA / MonotoneProgA coincide with LClosed / MonotoneProg on aggregation-free programs; hypothesis RelInputsNodup as in run_agg_eq_model (the item-wise versions need none)",
            "Lean 4.33.0 kernel", "axioms: propext, Classical.choice, Quot.sound only (audited per theorem)",
            "statement: Props/C04.lean", "model Model/Engine.lean (aggTuples: the aggregated relation's stored index entries, full index = distinct tuples, "
            "Vec index = one entry per insertion) tied by compiled stratified programs with count/sum/min/max/not at stratum depth 1-3",
@@ -179,7 +180,7 @@ def known(c, p, impl, model):
 
 
 def check(tier, replay=None):
-    return engcheck.run_property("C04", tier, modules=["AscentVerif.Props.C04", "AscentVerif.Props.C04Lat", "AscentVerif.Props.C04Phys", "AscentVerif.Proofs.NDAgg", "AscentVerif.Proofs.PhysAggRun", "AscentVerif.Props.C04PhysPlan"], theorems=THEOREMS, trusted=TRUSTED, group="c04",
+    return engcheck.run_property("C04", tier, modules=["AscentVerif.Props.C04", "AscentVerif.Props.C04Lat", "AscentVerif.Props.C04LatSem", "AscentVerif.Props.C04Phys", "AscentVerif.Proofs.NDAgg", "AscentVerif.Proofs.PhysAggRun", "AscentVerif.Props.C04PhysPlan"], theorems=THEOREMS, trusted=TRUSTED, group="c04",
                                  build=build, oracle=oracle, known=known, what="compiled stratified programs with aggregation / negation",
                                  rule="generated relational cores plus aggregation rules (count, sum, min, max, not) at stratum depth 1-3, aggregated relation's "
                                       "columns bound by key variables / constants, wildcarded or aggregated in every mix; aggregation as the FIRST body item followed by two joined clauses the second of which "
